@@ -53,6 +53,7 @@ type RunResult struct {
 	NKnown      int
 	Nontrivial  int
 	obsByPrefix map[string][]string
+	Transcripts []Transcript
 }
 
 func (r *RunResult) distinctViolations() []Violation {
@@ -117,6 +118,10 @@ func (w *World) Explore(spec RunSpec, known map[string]bool, workers int, seed i
 					syncMaps: map[*Cell]*MapV{}, wgs: map[*Cell]*wgState{}, mus: map[*Cell]*muState{},
 					prefix: prefix, funcs: map[*ssa.Function]int{}, q: map[string]int{}, stubsUsed: map[string]bool{},
 					entVC: map[*MapEnt]vclock{}, atomVC: map[*Cell]vclock{}, hostDone: make(chan struct{}, 4096)}
+				mu.Lock()
+				record := len(res.Transcripts) < 400 && (res.Paths < 60 || res.Paths%499 == 0)
+				mu.Unlock()
+				sol.rec, sol.lines, sol.answers = record, nil, nil
 				sol.send("(push)")
 				outcome := "ok"
 				inconcl := ""
@@ -187,7 +192,11 @@ func (w *World) Explore(spec RunSpec, known map[string]bool, workers int, seed i
 					}()
 				}
 				sol.send("(pop)")
+				sol.rec = false
 				mu.Lock()
+				if record && len(sol.answers) > 0 {
+					res.Transcripts = append(res.Transcripts, Transcript{Lines: sol.lines, Answers: sol.answers})
+				}
 				res.Paths++
 				if len(x.decisions) > 0 || x.q["assert.sat"]+x.q["assert.unsat"] > 0 {
 					res.Nontrivial++
